@@ -590,6 +590,8 @@ impl Move {
 
 #[derive(Clone, Debug)]
 pub struct Finding {
+    /// number of moves applied when the finding was recorded
+    pub at_move: usize,
     pub clause: &'static str,
     pub site: String,
     pub class: String,
@@ -642,6 +644,9 @@ pub struct Side<C: Conn> {
 }
 
 pub struct Sim<C: Conn> {
+    pub seed: u64,
+    /// scripted secure_random values per side at the start (for replay from the log)
+    pub initial_scripts: [Vec<[u8; 4]>; 2],
     pub variant: Variant,
     pub sides: [Side<C>; 2],
     /// wire[d]: datagrams travelling towards side d.
@@ -710,6 +715,8 @@ impl<C: Conn> Sim<C> {
             nonvital_counter: 0,
         };
         Sim {
+            seed,
+            initial_scripts: [Vec::new(), Vec::new()],
             variant,
             sides: [side(0), side(1)],
             wire: [Vec::new(), Vec::new()],
@@ -739,6 +746,7 @@ impl<C: Conn> Sim<C> {
     pub fn finding(&mut self, clause: &'static str, site: &str, class: &str, detail: Value) {
         if self.findings.len() < 32 {
             self.findings.push(Finding {
+                at_move: self.log.len(),
                 clause,
                 site: site.to_string(),
                 class: class.to_string(),
@@ -1366,6 +1374,7 @@ pub fn run_history<C: Conn, H: FnMut(&mut Sim<C>, &Move) -> bool>(rng: &mut Rng,
         script_reserved(rng, &mut sim.sides[0].cb);
         script_reserved(rng, &mut sim.sides[1].cb);
     }
+    sim.initial_scripts = [sim.sides[0].cb.script.clone(), sim.sides[1].cb.script.clone()];
     // A few moves may precede the connect (ticks and clock advances are valid in every state).
     let pre = if rng.chance(1, 4) { rng.range(1, 4) } else { 0 };
     for _ in 0..pre {
@@ -1446,10 +1455,78 @@ pub fn fold_stats<C: Conn>(ctx: &mut crate::Ctx, sim: &Sim<C>) {
 
 /// Forwards the findings whose clause is in `own` as violations; everything
 /// else is counted as `aborted_by_other_clause`.
+/// Re-executes a recorded move list on fresh endpoints (same seed, same scripted
+/// randomness). Moves that are not valid in the state reached are skipped.
+pub fn replay_log<C: Conn>(like: &Sim<C>, moves: &[Move]) -> Sim<C> {
+    let mut sim: Sim<C> = Sim::new(like.variant, like.seed);
+    sim.sides[0].cb.script = like.initial_scripts[0].clone();
+    sim.sides[1].cb.script = like.initial_scripts[1].clone();
+    sim.initial_scripts = like.initial_scripts.clone();
+    sim.allow_disconnect_unconnected = like.allow_disconnect_unconnected;
+    sim.check_wire = like.check_wire;
+    for m in moves {
+        if sim.ended {
+            break;
+        }
+        sim.apply(m.clone());
+    }
+    sim
+}
+
+/// Greedy (ddmin-style) minimisation of the move list that leads to a finding
+/// of the built-in oracles, bounded by `budget` re-executions.
+pub fn minimise<C: Conn>(sim: &Sim<C>, f: &Finding, budget: usize) -> Vec<Move> {
+    let reproduces = |moves: &[Move]| {
+        let s = replay_log(sim, moves);
+        s.findings.iter().any(|g| g.clause == f.clause && g.class == f.class && g.site == f.site)
+    };
+    let mut moves: Vec<Move> = sim.log[..f.at_move.min(sim.log.len())].to_vec();
+    let mut spent = 1;
+    if !reproduces(&moves) {
+        return sim.log.clone(); // not reproducible from the log alone (monitor-side oracle): keep everything
+    }
+    let mut chunk = (moves.len() / 2).max(1);
+    while chunk >= 1 && spent < budget {
+        let mut i = 0;
+        while i < moves.len() && spent < budget {
+            let end = (i + chunk).min(moves.len());
+            let mut candidate = moves.clone();
+            candidate.drain(i..end);
+            spent += 1;
+            if reproduces(&candidate) {
+                moves = candidate;
+            } else {
+                i += chunk;
+            }
+        }
+        if chunk == 1 {
+            break;
+        }
+        chunk /= 2;
+    }
+    moves
+}
+
+const BUILTIN_CLAUSES: [&str; 13] = [
+    "prefix", "nonvital-membership", "ready", "wire-too-long", "wire-unparseable", "wire-warning", "wire-chunk-count", "wire-chunk-differs",
+    "panic", "no-return", "too-long-accepted", "refusal-changed-state", "refused-within-limit",
+];
+
+/// Forwards the findings whose clause is in `own` as violations; everything
+/// else is counted as `other_clause[...]`. The first occurrence of a signature
+/// in this shard is minimised before it is recorded.
 pub fn forward_findings<C: Conn>(ctx: &mut crate::Ctx, sim: &Sim<C>, own: &[&str], case_data: &Value) {
     for f in &sim.findings {
         if own.contains(&f.clause) {
             let mut data = case_data.clone();
+            let signature = format!("{}|{}|{}|{}", ctx.property, f.clause, f.site, f.class);
+            if !ctx.violations.contains_key(&signature) && BUILTIN_CLAUSES.contains(&f.clause) && sim.log.len() <= 20_000 {
+                let small = minimise(sim, f, 300);
+                data["minimised_moves"] = json!(small.iter().map(|m| m.to_json()).collect::<Vec<_>>());
+                data["minimised_from"] = json!(sim.log.len());
+                data["seed"] = json!(sim.seed);
+                data["scripted_random"] = json!(sim.initial_scripts.iter().map(|s| s.iter().map(|x| crate::hex(x)).collect::<Vec<_>>()).collect::<Vec<_>>());
+            }
             if sim.log.len() <= 400 {
                 data["log"] = sim.log_json();
             } else {
